@@ -938,6 +938,9 @@ class Interp:
                     st.truthy = st.truthy | {v[2]}
 
     def st_If(self, s, st):
+        d = _desugar_quantifier(s)
+        if d is not None:
+            return self.exec_block(d, st)
         outs, res = self.branch(s.test, st)
         for s2, b in outs:
             res.extend(self.exec_block(s.body if b else s.orelse, s2))
@@ -1290,13 +1293,14 @@ class Interp:
             return None
         return ('num', tuple(sorted(d.items(), key=repr)))
 
-    def _unroll(self, s, st, seq):
+    def _unroll(self, s, st, seq, terms=False):
         cur = [st]
         res = []
         for elem in seq:
             nxt = []
             for c in cur:
-                for r in self.assign(s.target, from_py(elem), c, s):
+                for r in self.assign(s.target, elem if terms
+                                     else from_py(elem), c, s):
                     if r[1] != 'normal':
                         res.append(r)
                         continue
@@ -1321,6 +1325,20 @@ class Interp:
                 ok, seq = try_py(it)
                 if ok and isinstance(seq, (list, tuple)) and len(seq) <= 64:
                     return self._unroll(s, s2, seq)
+            # a loop over a table of rows written in place,
+            #     for key, value in (('sender', sender), ...):
+            # is the same as its body written out once per row
+            if isinstance(s.iter, (ast.Tuple, ast.List)) and \
+                    0 < len(s.iter.elts) <= 12 and \
+                    all(isinstance(e, (ast.Tuple, ast.List))
+                        for e in s.iter.elts) and \
+                    kind(it) in ('tuple', 'list') and \
+                    len(it[1]) == len(s.iter.elts) and \
+                    all(kind(x) in ('tuple', 'list') or
+                        (kind(x) == 'item' and kind(x[1]) in ('tuple', 'list'))
+                        for x in it[1]):
+                rows = [x[1] if kind(x) == 'item' else x for x in it[1]]
+                return self._unroll(s, s2, rows, terms=True)
             post, out, lid = self._run_loop(s, s2, 'for', it, s.target)
             res = []
             # normal exit (orelse runs), breaks skip orelse
@@ -2267,6 +2285,68 @@ _CONST_METHODS = {'join', 'startswith', 'endswith', 'encode', 'decode',
 _BUILTIN_NAMES = set(dir(__import__('builtins')))
 
 
+def _desugar_quantifier(s):
+    """`if any(P(x) for x in S): A else: B` (also all / not any / not all)
+    as the loop it abbreviates:
+        q = False
+        for x in S:
+            if P(x):
+                q = True
+                break
+        if q: A else: B
+    so that the rules see the same loop events as for the hand-written loop.
+    Returns the replacement statements or None."""
+    import copy
+    t = s.test
+    neg = False
+    if isinstance(t, ast.UnaryOp) and isinstance(t.op, ast.Not):
+        neg, t = True, t.operand
+    if not (isinstance(t, ast.Call) and isinstance(t.func, ast.Name) and
+            t.func.id in ('any', 'all') and len(t.args) == 1 and
+            not t.keywords and
+            isinstance(t.args[0], (ast.GeneratorExp, ast.ListComp)) and
+            len(t.args[0].generators) == 1 and
+            not t.args[0].generators[0].is_async):
+        return None
+    is_any = t.func.id == 'any'
+    g = t.args[0].generators[0]
+    tmp = '__q%d_%d' % (s.lineno, s.col_offset)
+    # comprehension variables have their own scope: rename them
+    bound = {n.id for n in ast.walk(g.target) if isinstance(n, ast.Name)}
+
+    class Ren(ast.NodeTransformer):
+        def visit_Name(self, n):
+            if n.id in bound:
+                return ast.copy_location(
+                    ast.Name(id=tmp + '_' + n.id, ctx=n.ctx), n)
+            return n
+    target = Ren().visit(copy.deepcopy(g.target))
+    elt = Ren().visit(copy.deepcopy(t.args[0].elt))
+    ifs = [Ren().visit(copy.deepcopy(i)) for i in g.ifs]
+    hit = elt if is_any else ast.UnaryOp(op=ast.Not(), operand=elt)
+    if ifs:
+        hit = ast.BoolOp(op=ast.And(), values=ifs + [hit])
+    flag = lambda ctx: ast.Name(id=tmp, ctx=ctx)
+    init = ast.Assign(targets=[flag(ast.Store())],
+                      value=ast.Constant(value=not is_any))
+    loop = ast.For(
+        target=target, iter=g.iter,
+        body=[ast.If(test=hit, body=[
+            ast.Assign(targets=[flag(ast.Store())],
+                       value=ast.Constant(value=is_any)),
+            ast.Break()], orelse=[])],
+        orelse=[])
+    test2 = flag(ast.Load())
+    if neg:
+        test2 = ast.UnaryOp(op=ast.Not(), operand=test2)
+    final = ast.If(test=test2, body=s.body, orelse=s.orelse)
+    out = [init, loop, final]
+    for n in out:
+        ast.copy_location(n, s)
+        ast.fix_missing_locations(n)
+    return out
+
+
 def _mutates_attr(node, attr):
     """X.attr[...] = / del X.attr[...] / X.attr.mutator(...)"""
     if isinstance(node, ast.Subscript) and \
@@ -2400,6 +2480,19 @@ def subst_fold(t, mapping):
                 except Exception:
                     pass
             return ('call', x[1], ('attr', recv, x[2][2]), args, x[4], x[5])
+        if k == 'call' and kind(x[2]) == 'attr' and not x[4] and \
+                x[2][2] == 'get' and kind(x[2][1]) == 'dict' and \
+                1 <= len(x[3]) <= 2:
+            # constant_table.get(key[, default]) once the key is constant
+            recv = go(x[2][1])
+            args = tuple(go(a) for a in x[3])
+            if kind(recv) == 'dict' and is_const(args[0]) and \
+                    all(is_const(a) for a, _ in recv[1]):
+                for a, v in recv[1]:
+                    if a == args[0]:
+                        return v
+                return args[1] if len(args) > 1 else NONE
+            return ('call', x[1], ('attr', recv, 'get'), args, x[4], x[5])
         if k == 'call' and kind(x[2]) == 'builtin' and \
                 x[2][1] in _PURE_BUILTINS and not x[4]:
             args = tuple(go(a) for a in x[3])
